@@ -21,6 +21,7 @@ type Case struct {
 	Ctor     string
 	A, B, C  int
 	Loopback bool
+	Prev     int // index of the predecessor message on the loopback connection
 }
 
 func clamp(v, hi int) int {
@@ -277,20 +278,34 @@ func check(c Case, lp *loop) string {
 		return fmt.Sprintf("%s%v: GetChannel = %v (%d)", c.Ctor, []int{c.A, c.B, c.C}, isCh, dch)
 	}
 	if c.Loopback && lp != nil {
+		// the message is sent directly behind a predecessor of a rotating kind, so that every
+		// (previous kind, this kind) pair goes over the same connection (state must not leak)
+		prev := predecessors[c.Prev%len(predecessors)]
 		lp.got = lp.got[:0]
 		var err error
-		if p := ev.Try(func() { err = lp.send(m) }); p != "" || err != nil {
+		if p := ev.Try(func() {
+			if err = lp.send(prev); err == nil {
+				err = lp.send(m)
+			}
+		}); p != "" || err != nil {
 			return fmt.Sprintf("loopback send of % X: %v %s", []byte(m), err, p)
 		}
-		if len(lp.got) != 1 || !bytes.Equal(lp.got[0], m) {
-			return fmt.Sprintf("%s%v = % X sent through a loopback port arrives as % X", c.Ctor, []int{c.A, c.B, c.C}, []byte(m), lp.got)
+		if len(lp.got) != 2 || !bytes.Equal(lp.got[0], prev) || !bytes.Equal(lp.got[1], m) {
+			return fmt.Sprintf("%s%v = % X sent through a loopback port directly after % X arrives as % X", c.Ctor, []int{c.A, c.B, c.C}, []byte(m), []byte(prev), lp.got)
 		}
 	}
 	return ""
 }
 
+// predecessors: one message of every constructor kind.
+var predecessors = []midi.Message{
+	midi.NoteOn(1, 60, 100), midi.NoteOff(2, 61), midi.PolyAfterTouch(3, 62, 63), midi.ControlChange(4, 7, 127),
+	midi.ProgramChange(5, 9), midi.AfterTouch(6, 10), midi.Pitchbend(7, -100), midi.SPP(1000), midi.SongSelect(3),
+	midi.MTC(0x25), midi.Tune(), midi.Pitchbend(15, 8191), midi.SPP(16383),
+}
+
 var ctors = ev.NewCheck("C07", "constructors",
-	"exhaustive: NoteOn/NoteOff/NoteOffVelocity/PolyAfterTouch/ControlChange over 16x128x128, ProgramChange/AfterTouch 16x128, Pitchbend 16 x all 65536 int16 values, SPP all 65536, SongSelect and MTC all 256, Tune; plus out-of-range grid channel {16,17,127,128,255} x data {128,129,200,254,255} x in-range partners {0,1,64,127}; oracle = independent MIDI 1.0 wire table (status nibble|channel, clamped 7-bit data, 14-bit LSB first), no data byte > 127 for any argument, matching accessor returns the (clamped) arguments, every other type-specific accessor of midi.Message and smf.Message (incl. all meta accessors) rejects, derived views by definition, and loopback through testdrv delivers the same bytes (quick: every 16th tuple, thorough: all); non-trivial = some data argument != 0; tuples are distinct by construction",
+	"exhaustive: NoteOn/NoteOff/NoteOffVelocity/PolyAfterTouch/ControlChange over 16x128x128, ProgramChange/AfterTouch 16x128, Pitchbend 16 x all 65536 int16 values, SPP all 65536, SongSelect and MTC all 256, Tune; plus out-of-range grid channel {16,17,127,128,255} x data {128,129,200,254,255} x in-range partners {0,1,64,127}; oracle = independent MIDI 1.0 wire table (status nibble|channel, clamped 7-bit data, 14-bit LSB first), no data byte > 127 for any argument, matching accessor returns the (clamped) arguments, every other type-specific accessor of midi.Message and smf.Message (incl. all meta accessors) rejects, derived views by definition, and loopback through testdrv, directly behind a predecessor message of a rotating constructor kind on the same connection, delivers the same bytes (quick: every 16th tuple, thorough: all); non-trivial = some data argument != 0; tuples are distinct by construction",
 	nil, func(c Case) (res ev.Result) {
 		res.Nontrivial = true
 		var lp *loop
@@ -319,6 +334,7 @@ func TestEnumConstructors(t *testing.T) {
 			return
 		}
 		c.Loopback = (idx/shards)%stride == 0
+		c.Prev = int((idx / shards / stride) % int64(len(predecessors)))
 		n++
 		if c.B != 0 || c.C != 0 || (c.A != 0 && c.Ctor[0] != 'N') {
 			nt++
